@@ -18,6 +18,11 @@ for f in ins:
             if m['status']!='survived': continue
             k=(m['file'],m['line'],m['new'])
             muts.setdefault(k,dict(m,props=set()))['props'].add(p)
+import glob
+for f in glob.glob(os.environ.get('SKIPKILLED','/nonexistent')):
+    for ks,v in json.load(open(f)).items():
+        if v['status'] in ('killed','invalid','stale'):
+            muts.pop((v['file'],v['line'],v['new']),None)
 keys=sorted(muts)
 res=json.load(open(out)) if os.path.exists(out) else {}
 for idx,k in enumerate(keys):
